@@ -399,6 +399,17 @@ fn fixed_chunks(run: &Run, spec: &Spec) {
 /// Streams too large to store in a replay file are described: ("S6", number of entries) and
 /// ("very-large", k).
 fn described_spec(kind: &str, n: usize) -> Spec {
+    if let Some(k) = kind.strip_prefix("S6-bad:").and_then(|k| k.parse::<usize>().ok()) {
+        // the S6 stream of n entries in which the k-th record lost the '=' of its second line
+        let good = described_spec("S6", n);
+        let mut bytes = good.bytes.clone();
+        let starts: Vec<usize> = std::iter::once(0).chain(bytes.windows(2).enumerate().filter(|(_, w)| *w == b"\n\n").map(|(i, _)| i + 2)).collect();
+        let at = starts[k.min(starts.len() - 2)];
+        let line2 = at + bytes[at..].iter().position(|b| *b == b'\n').unwrap() + 1;
+        let eq = line2 + bytes[line2..].iter().position(|b| *b == b'=').unwrap();
+        bytes[eq] = b' ';
+        return derived_spec(&format!("S6 with a malformed record {}", k), bytes, false);
+    }
     if kind == "S6" {
         let many: Vec<Entry> = (0..n).map(|i| entry(&format!("m{}", i), if i % 97 == 3 { 1 } else { 0 }, false)).collect();
         good_spec("S6 a stream larger than 1 MiB", many)
@@ -750,6 +761,33 @@ fn main() {
                         }
                         None => t.outcome("scale/small-then-large-ok"),
                     }
+                }
+            }
+        });
+    }
+    // a large stream with ONE malformed record (early, in the middle, last), written at once, in
+    // halves, in 64 KiB pieces and with a cut just after the faulty line: the write that completes
+    // the record fails, and exactly the records in front of it have been collected
+    {
+        let n_entries = 1300usize;
+        let ks: Vec<usize> = vec![0, 1, 95, 96, 97, 650, 1298, 1299];
+        run.bound(format!("a large malformed stream: {} entries (~330 KB), the record at index {:?} lacking an '=', written in one call, in halves, in 64 KiB and 100 000-byte pieces", n_entries, ks));
+        par_items(&run, "C09 large malformed", &ks, |_, k, t| {
+            let kind = format!("S6-bad:{}", k);
+            let spec = described_spec(&kind, n_entries);
+            let n = spec.bytes.len();
+            for cuts in [vec![], vec![n / 2], (1..n).filter(|q| q % 65_536 == 0).collect::<Vec<usize>>(), (1..n).filter(|q| q % 100_000 == 0).collect::<Vec<usize>>()] {
+                t.evals += 1;
+                t.validated += 1;
+                t.states += 1;
+                t.transitions += cuts.len() as u64 + 1;
+                t.nontrivial += 1;
+                match run_partition(&spec, &cuts) {
+                    Some(mut v) => {
+                        v.case = json!({"described": kind, "n": n_entries, "cuts": cuts, "note": "the stream is regenerated from its description"});
+                        t.violation(v)
+                    }
+                    None => t.outcome("scale/large-malformed-rejected-with-its-prefix"),
                 }
             }
         });
